@@ -271,3 +271,35 @@ PROPS.update({
         expected_probes=["stop_point_enumerated", "dropped_before_build", "dropped_before_start", "ended_with_errors"],
         assumptions=["sampled programs; stop points enumerated per program up to a bound"]),
 })
+
+PROPS.update({
+    "C05": net_prop(
+        engine="asy",
+        technique=SIM_TECH + "; nondeterminism = relative order of timer creation / reset / drop / cancellation across the tasks of a module",
+        level_text="Seeded exploration: 1..4 modules with 1..6 scripted tasks each (sleep, sleep_until incl. reached deadlines, timeout over "
+                   "sleep / ready / never, select! over 2..3 sleeps with equal and different deadlines, pinned sleep that is reset before or "
+                   "after its first poll, intervals with all three missed-tick behaviours and late ticks) run on the real time driver and the "
+                   "real per-module tokio runtime; a virtual-time evaluator of the scripts gives the exact instant and outcome of every await.",
+        level_note="Trusted: the script evaluator (200 lines). Interval lateness is kept off the undocumented (0, 5 ms] band; at equal select! deadlines any minimal branch is accepted.",
+        runs={"quick": 15_000, "thorough": 1_500_000},
+        rule="async module programs x deadline orders; distinct = distinct program hash; non-trivial = a module with >= 2 tasks in which a "
+             "timer is dropped, reset or loses a select/timeout while other timers of the module are pending",
+        fault_probes=["task_polls"],
+        expected_probes=["task_polls"],
+        assumptions=["tasks of one module do not communicate in C05 scenarios (they share only the module's timer queue)", "sampled, not exhaustive"]),
+    "C06": net_prop(
+        engine="asy",
+        technique=SIM_TECH + "; nondeterminism = number of simultaneously runnable tasks, wake-chain depth and per-poll work",
+        level_text="Seeded exploration: (a) k tasks of one module due at the same instant, (b) wake chains A->B->C... through channels inside one "
+                   "instant, (c) one task doing w channel receives in a single poll, spawned with tokio::spawn and spawn_local, triggered by "
+                   "timer wake-ups, start-up and messages; every resumption must be logged at exactly the instant its condition became true. "
+                   "Most runs stay below the executor's budgets; 1 in 12 goes far beyond (62..3000 tasks, chains, >= 128 receives) and "
+                   "reproduces the open known finding.",
+        level_note="Trusted: the script evaluator; a poll counter (future adapter + invisible processing element) supplies the facts the known-finding predicate is matched on.",
+        runs={"quick": 5_000, "thorough": 500_000},
+        rule="async module programs x number of runnable tasks x chain depth x per-poll work; distinct = distinct program hash; non-trivial = an "
+             "instant with >= 2 task resumptions",
+        fault_probes=["module_event_with_61_or_more_polls"],
+        expected_probes=["module_event_with_61_or_more_polls", "task_polls"],
+        assumptions=["sampled, not exhaustive"]),
+})
